@@ -920,6 +920,27 @@ fn main() {
                     if bad.is_empty() { "ok".into() } else { bad.join("; ") }
                 }
             }
+            "workers_pausable" => {
+                fjall::verif::set_workers_pausable(a[0] == "1");
+                "ok".into()
+            }
+            "spawn_close" => {
+                // spawn_close <tid>: drop every handle and the database on another thread (Drop may have to wait for parked workers)
+                w.iters.clear();
+                w.snaps.clear();
+                w.batches.clear();
+                w.otx.clear();
+                w.stx.clear();
+                let ks = std::mem::take(&mut w.ks);
+                let db = w.db.take();
+                let h = std::thread::spawn(move || {
+                    drop(ks);
+                    drop(db);
+                    "ok".to_string()
+                });
+                threads.insert(a[0].to_string(), h);
+                "ok".into()
+            }
             "trace_on" => {
                 fjall::verif::trace_enable(true);
                 "ok".into()
